@@ -31,10 +31,10 @@ def permuted(scn, rng):
 
 
 def run(tier, seed):
-    import opfython.utils.constants as c
     rep = H.Report(PID, tier, seed, "model_checking")
     F.design(rep, PID, tier)
     H.import_opfython()
+    import opfython.utils.constants as c
     rng = random.Random(seed * 1000003 + 11)
     thorough = tier == "thorough"
     items = []
